@@ -279,7 +279,23 @@ class SymDateTime(object):
         raise Unmodelled('str() of symbolic datetime')
 
     def __sym_str__(self):
-        raise Unmodelled('str() of symbolic datetime')
+        """str(datetime): 'YYYY-MM-DD HH:MM:SS' (+ '.ffffff' when the microsecond is non-zero), years 1000..9999"""
+        from .values import mkstr
+        y, m, d = self._ymd()
+        if not _test(y >= 1000):
+            raise Unmodelled('str() of a datetime before year 1000')
+
+        def dig(z, n):
+            out = []
+            for i in range(n - 1, -1, -1):
+                out.append(z3.simplify(fmod(fdiv(z, z3.IntVal(10 ** i)), z3.IntVal(10)) + 48))
+            return out
+        H, M, S = zint(self.hour), zint(self.minute), zint(self.second)
+        cps = dig(y, 4) + [45] + dig(m, 2) + [45] + dig(d, 2) + [32] + dig(H, 2) + [58] + dig(M, 2) + [58] + dig(S, 2)
+        us = zint(self.microsecond)
+        if _test(us != 0):
+            cps = cps + [46] + dig(us, 6)
+        return mkstr(cps)
 
     def __hash__(self):
         raise Unmodelled('hash of symbolic datetime')
